@@ -321,19 +321,14 @@ def run(ctx):
     loops = [n for n in ffa.nodes() if n.kind == "for" and any(is_self_attr(x, "live_points") for x in ast.walk(n.ast.iter))]
     ctx.require(len(loops) == 1, "finalise: expected one loop over self.live_points")
     lp = loops[0].ast
-    it_ok = isinstance(lp.iter, ast.Call) and call_name(lp.iter) == "enumerate" and len(lp.iter.args) == 1 and is_self_attr(lp.iter.args[0], "live_points") and not lp.iter.keywords
-    ctx.ob("R-ORDER", "C01.6", ff, "remaining live points consumed in stored (ascending) order, counter from 0", it_ok and isinstance(lp.target, ast.Tuple) and len(lp.target.elts) == 2, f"`for {src(lp.target)} in {src(lp.iter)}`", node=lp)
-    if it_ok and isinstance(lp.target, ast.Tuple):
-        iv, pv = src(lp.target.elts[0]), src(lp.target.elts[1])
-        body = ffa.cfg.loop_body(loops[0].id)
-        incs = [(n, c) for n, c in ffa.find_calls("self.state.increment") if n in body]
-        apps = [(n, c) for n, c in ffa.find_calls("self.nested_samples.append") if n in body]
-        ctx.require(len(incs) == 1 and len(apps) == 1, "finalise loop: expected one increment and one append")
-        (ni, ic), (na, ac) = incs[0], apps[0]
-        kws = {k.arg: k.value for k in ic.keywords}
-        nl = kws.get("nlive") if "nlive" in kws else (ic.args[1] if len(ic.args) > 1 else None)
+    from ..rules.schedule import final_schedule as _fsched
+    sch = _fsched(ffa, loops[0])
+    ctx.ob("R-ORDER", "C01.6", ff, "remaining live points consumed in stored (ascending) order", sch["point"] is not None, f"`for {src(lp.target)} in {src(lp.iter)}`", node=lp)
+    if sch["inc"] is not None:
+        pv = sch["point"]
+        (ni, ic), (na, ac) = sch["inc"], sch["app"]
         ctx.ob("R-ORDER", "C01.6", ff, "each remaining point is integrated with its own logL", ic.args and src(ic.args[0]) == f"{pv}['logL']", f"`{src(ic)}`", node=ic)
-        ctx.ob("R-LIN", "C01.6", ff, "live count decreases nlive, nlive-1, ..., 1 (nlive - i)", nl is not None and lin_eq(linear(nl), {"self.nlive": 1, iv: -1}), f"`{src(ic)}`", node=ic)
+        ctx.ob("R-LIN", "C01.6", ff, "live count decreases nlive, nlive-1, ..., 1 (nlive minus the number of points already consumed)", sch["ok"], sch["why"], node=ic)
         ctx.ob("R-ORDER", "C01.6", ff, "each remaining point is recorded (append of the same point)", len(ac.args) == 1 and src(ac.args[0]) == pv, f"`{src(ac)}`", node=ac)
         inner = [h for h in ffa.cfg.loops_containing(ni)]
         ctx.ob("R-ORDER", "C01.6", ff, "increment and append are paired once per remaining point, increment first", len(inner) == 1 and ffa.cfg.loops_containing(na) == inner and ffa.cfg.must_pass(loops[0].id, na, [ni]) and not _conditional_within(ffa, loops[0].id, [ni, na]), "pairing inside the loop body", node=ic)
